@@ -10,12 +10,14 @@ def _uuid(rng, width=None):
     width = width or rng.choice([16, 16, 128])
     if width == 16:
         return '%04X' % rng.randrange(0xF000, 0xFFF0)
+    if width == 32:
+        return '%08X' % rng.randrange(0x00010000, 0xFFFFFFF0)
     b = bytes(rng.getrandbits(8) for _ in range(16))
     h = b.hex().upper()
     return f'{h[0:8]}-{h[8:12]}-{h[12:16]}-{h[16:20]}-{h[20:32]}'
 
 
-def gen_db(rng, max_services=4, max_chars=4, value_lens=None, perms_pool=None, mtu_hint=23, callbacks=True):
+def gen_db(rng, max_services=4, max_chars=4, value_lens=None, perms_pool=None, mtu_hint=23, callbacks=True, uuid32=False):
     value_lens = value_lens or [0, 1, 2, 20, mtu_hint - 3, mtu_hint - 2, mtu_hint - 1, mtu_hint, 2 * (mtu_hint - 1), 100, 512]
     perms_pool = perms_pool or [PERM_R | PERM_W]
     services = []
@@ -42,7 +44,8 @@ def gen_db(rng, max_services=4, max_chars=4, value_lens=None, perms_pool=None, m
                 'delay': rng.choice([0.0, 0.001, 0.05]), 'descs': descs,
             })
         includes = [j for j in range(si) if rng.random() < 0.2]
-        services.append({'uuid': _uuid(rng), 'primary': rng.random() < 0.85, 'includes': includes, 'chars': chars})
+        # (a 32-bit service UUID travels as its 128-bit expansion; the application and the client API may use the short form)
+        services.append({'uuid': _uuid(rng, 32) if uuid32 and rng.random() < 0.25 else _uuid(rng), 'primary': rng.random() < 0.85, 'includes': includes, 'chars': chars})
     return {'services': services}
 
 
@@ -129,7 +132,7 @@ def current_value(ch) -> bytes:
 
 def uuid_bytes(u: str) -> bytes:
     """Little-endian wire form of a UUID given as 4 hex digits or 8-4-4-4-12."""
-    if len(u) == 4:
+    if len(u) in (4, 8):
         return bytes.fromhex(u)[::-1]
     return bytes.fromhex(u.replace('-', ''))[::-1]
 
